@@ -22,9 +22,10 @@ VARIABLES
     cells, hist, txs, hdrs, nums,   \* the index keyspaces (see Index)
     cpFinal,   \* finalized check points (fids), cpFinal[i + 1] = check point i
     cached,    \* <<check point index, << fids >> >>: cached_block_filter_hashes
-    pf         \* peer -> [cps, latest, bpr, br, tpr]: per-peer filter / request bookkeeping
+    pf,        \* peer -> [cps, latest, bpr, br, tpr]: per-peer filter / request bookkeeping
+    fetchH, fetchT   \* fetching_headers / fetching_txs: sets of <<id, added, firstSent (-1 = never), timeout, missing>>
 
-fsVars == <<scripts, startOf, minF, mdb, mmem, cells, hist, txs, hdrs, nums, cpFinal, cached, pf>>
+fsVars == <<scripts, startOf, minF, mdb, mmem, cells, hist, txs, hdrs, nums, cpFinal, cached, pf, fetchH, fetchT>>
 allVars == <<psVars, fsVars>>
 
 Interval == cfg.interval
@@ -38,6 +39,11 @@ IxUnchanged == UNCHANGED <<cells, hist, txs, hdrs, nums>>
 
 Keys == {e[1] : e \in scripts}
 NumOf(sk) == (CHOOSE e \in scripts : e[1] = sk)[2]
+\* KF-C09-rollback-number: rollback_to_block(x) stores x as the block number of the rolled-back
+\* scripts although block x itself was removed (MIN_FILTERED_NUMBER becomes x - 1).  With the
+\* finding allowed, such a script is judged as filtered up to x - 1.
+HonestNumOf(sk) ==
+    IF "KF-C09-rollback-number" \in cfg.allow /\ NumOf(sk) = minF + 1 THEN minF ELSE NumOf(sk)
 SetMin(S) == CHOOSE x \in S : \A y \in S : x <= y
 
 \* Storage::update_block_number(n): every script below n is raised to n
@@ -62,14 +68,17 @@ UpsertFn(f, list) ==
 ListNums(list) == {list[i][2] : i \in 1..Len(list)}
 ListKeys(list) == {list[i][1] : i \in 1..Len(list)}
 
+\* pending matched records are discarded: the filters of their ranges are synced again
+Rewind(m) == IF mdb = <<>> THEN m ELSE Min(m, IF mdb[1][1] = 0 THEN 0 ELSE mdb[1][1] - 1)
+
 SetScripts(cmd, list) ==
     /\ UNCHANGED psCore
-    /\ UNCHANGED <<cpFinal, cached, pf>>
+    /\ UNCHANGED <<cpFinal, cached, pf, fetchH, fetchT>>
     /\ mmem' = {}                 \* the RPC clears the in-memory map in every case
     /\ IF cmd = "all"
        THEN /\ scripts' = Upsert({}, list)
             /\ startOf' = UpsertFn(<<>>, list)
-            /\ minF' = IF list = <<>> THEN minF ELSE SetMin(ListNums(list))
+            /\ minF' = Rewind(IF list = <<>> THEN minF ELSE SetMin(ListNums(list)))
             /\ mdb' = <<>>
             /\ IxUnchanged        \* genesis cells never belong to world scripts
        ELSE IF list = <<>>
@@ -77,14 +86,14 @@ SetScripts(cmd, list) ==
        ELSE IF cmd = "partial"
        THEN /\ scripts' = Upsert(scripts, list)
             /\ startOf' = UpsertFn(startOf, list)
-            /\ minF' = IF scripts = {} THEN SetMin(ListNums(list))
-                       ELSE Min(SetMin(ListNums(list)), minF)
+            /\ minF' = Rewind(IF scripts = {} THEN SetMin(ListNums(list))
+                              ELSE Min(SetMin(ListNums(list)), minF))
             /\ mdb' = <<>>
             /\ IxUnchanged
        ELSE \* delete
             /\ scripts' = {e \in scripts : e[1] \notin ListKeys(list)}
             /\ startOf' = [x \in (DOMAIN startOf) \ ListKeys(list) |-> startOf[x]]
-            /\ UNCHANGED minF
+            /\ minF' = Rewind(minF)
             /\ mdb' = <<>>
             /\ IxUnchanged
 
@@ -284,21 +293,136 @@ RollbackTo(x) ==
        /\ scripts' = {<<e[1], IF e[2] >= x THEN x ELSE e[2]>> : e \in scripts}
        /\ minF' = IF minF >= x THEN (IF x = 0 THEN 0 ELSE x - 1) ELSE minF
 
-\* rg: the reorg section (ids) of an accepted proof that makes the tip heavier
-CommitEffects(rg, tipMoves) ==
+\* rg / nl: reorg section and last-N headers of the prove state of an accepted proof that makes
+\* the tip heavier (tipMoves); the decision is PeerSync!ForkDecision, evaluated in the PRE state
+CommitEffects(rg, nl, tipMoves) ==
     IF ~tipMoves THEN UNCHANGED <<scripts, minF, mdb, mmem>> /\ IxUnchanged
-    ELSE IF rg = <<>>
-    THEN IF Num(world, tip) = 1
+    ELSE LET fd == ForkDecision(rg, nl) IN
+         IF fd.kind = "one"
          THEN /\ mdb' = SelectSeq(mdb, LAMBDA r : r[1] = 0)
               /\ mmem' = {}
               /\ RollbackTo(1)
-         ELSE UNCHANGED <<scripts, minF, mdb, mmem>> /\ IxUnchanged
-    ELSE LET fn == ForkNums(rg) IN
-         IF fn = {} THEN UNCHANGED <<scripts, minF, mdb, mmem>> /\ IxUnchanged
-         ELSE LET f == CHOOSE n \in fn : \A k \in fn : k <= n
-                  kept == KeepUpTo(mdb, f)
-                  x == (IF kept = <<>> THEN f ELSE kept[Len(kept)][1]) + 1
+         ELSE IF fd.kind = "to"
+         THEN LET kept == KeepUpTo(mdb, fd.f)
+                  x == (IF kept = <<>> THEN fd.f ELSE kept[Len(kept)][1]) + 1
               IN /\ mdb' = kept /\ mmem' = {} /\ RollbackTo(x)
+         ELSE UNCHANGED <<scripts, minF, mdb, mmem>> /\ IxUnchanged
+
+(***************************************************************************)
+(* fetch_header / fetch_transaction bookkeeping (Peers fetching maps) and   *)
+(* answers SendBlocksProof / SendTransactionsProof for them                 *)
+(***************************************************************************)
+Entry(S, id) == {e \in S : e[1] = id}
+NewEntry(id) == <<id, now, -1, FALSE, FALSE>>
+
+\* status the RPC computes from a fetch table S for `id` (when the data is not stored yet)
+FetchStatusOf(S, id) ==
+    IF Entry(S, id) = {} THEN "added"
+    ELSE LET e == CHOOSE x \in Entry(S, id) : TRUE IN
+         IF e[5] THEN "not_found" ELSE IF e[3] # -1 THEN "fetching" ELSE "added"
+
+\* the table after the call: a missing entry is re-added, an unknown one added
+AfterFetchCall(S, id) ==
+    IF Entry(S, id) = {} THEN S \cup {NewEntry(id)}
+    ELSE LET e == CHOOSE x \in Entry(S, id) : TRUE IN
+         IF e[5] THEN (S \ {e}) \cup {NewEntry(id)} ELSE S
+
+\* get_transaction_with_header: the block a stored transaction is reported in (via its NUMBER)
+ReportedBlockOf(t) ==
+    LET e == CHOOSE x \in StoredTx(Ix, t) : TRUE
+        bs == {n[2] : n \in {m \in nums : m[1] = e[2]}}
+    IN IF bs = {} THEN 0 ELSE CHOOSE b \in bs : TRUE
+
+\* fetch_transaction(t): [status, blk]
+RpcFetchTx(t, status, blk) ==
+    /\ UNCHANGED psCore
+    /\ UNCHANGED <<scripts, startOf, minF, mdb, mmem, cpFinal, cached, pf, fetchH>> /\ IxUnchanged
+    /\ IF StoredTx(Ix, t) # {}
+       THEN /\ status = "committed" /\ blk = ReportedBlockOf(t) /\ UNCHANGED fetchT
+       ELSE /\ status = FetchStatusOf(fetchT, t) /\ fetchT' = AfterFetchCall(fetchT, t)
+
+RpcGetTx(t, status, blk) ==
+    /\ UNCHANGED psCore
+    /\ UNCHANGED <<scripts, startOf, minF, mdb, mmem, cpFinal, cached, pf, fetchH, fetchT>> /\ IxUnchanged
+    /\ IF StoredTx(Ix, t) # {}
+       THEN status = "committed" /\ blk = ReportedBlockOf(t)
+       ELSE status = "unknown"
+
+RpcFetchHeader(b, status) ==
+    /\ UNCHANGED psCore
+    /\ UNCHANGED <<scripts, startOf, minF, mdb, mmem, cpFinal, cached, pf, fetchT>> /\ IxUnchanged
+    /\ IF b \in hdrs
+       THEN status = "fetched" /\ UNCHANGED fetchH
+       ELSE status = FetchStatusOf(fetchH, b) /\ fetchH' = AfterFetchCall(fetchH, b)
+
+\* peers whose prove state contains the stored tip header
+BestPeers ==
+    {p \in PeerNames : HasProof(peer[p]) /\
+        (peer[p].proved = tip \/ tip \in Range(peer[p].pLastN) \/ tip \in Range(peer[p].pReorg))}
+
+ToFetch(S) == {e \in S : e[3] = -1 \/ e[4]}
+MarkSent(S, ids) == {IF e[1] \in ids THEN <<e[1], e[2], IF e[3] = -1 THEN now ELSE e[3], FALSE, e[5]>> ELSE e : e \in S}
+MarkTimeout(S, ids) == {IF e[1] \in ids THEN <<e[1], e[2], e[3], TRUE, e[5]>> ELSE e : e \in S}
+MarkMissing(S, ids) == {IF e[1] \in ids THEN <<e[1], e[2], e[3], e[4], TRUE>> ELSE e : e \in S}
+Without(S, ids) == {e \in S : e[1] \notin ids}
+
+\* fetch_headers_txs: entries never sent or timed out go to an idle best peer
+FetchTick ==
+    /\ UNCHANGED psCore
+    /\ UNCHANGED <<scripts, startOf, minF, mdb, mmem, cpFinal, cached>> /\ IxUnchanged
+    /\ IF (fetchH = {} /\ fetchT = {}) \/ BestPeers = {}
+       THEN UNCHANGED <<fetchH, fetchT>>
+       ELSE /\ fetchH' = IF ToFetch(fetchH) # {} /\ \E p \in BestPeers : ~pf[p].bpr.on
+                         THEN MarkSent(fetchH, {e[1] : e \in ToFetch(fetchH)}) ELSE fetchH
+            /\ fetchT' = IF ToFetch(fetchT) # {} /\ \E p \in BestPeers : ~pf[p].tpr.on
+                         THEN MarkSent(fetchT, {e[1] : e \in ToFetch(fetchT)}) ELSE fetchT
+
+\* what remove_peer / a refresh timeout does for peer p's outstanding fetch requests
+TimeoutPeers(ps) ==
+    /\ fetchH' = MarkTimeout(fetchH, UNION {IF pf[p].bpr.on THEN Range(pf[p].bpr.hs) ELSE {} : p \in ps})
+    /\ fetchT' = MarkTimeout(fetchT, UNION {IF pf[p].tpr.on THEN Range(pf[p].tpr.hs) ELSE {} : p \in ps})
+
+\* peers whose blocks-proof / blocks / txs-proof request is overdue (refresh_all_peers)
+RequestTimeouts ==
+    {p \in PeerNames : \/ pf[p].bpr.on /\ now > pf[p].bpr.when + MsgTimeout
+                       \/ pf[p].br.on /\ now > pf[p].br.when + MsgTimeout
+                       \/ pf[p].tpr.on /\ now > pf[p].tpr.when + MsgTimeout}
+
+\* honest SendTransactionsProof for the request tpr of peer p; onChain: the server knows the last hash
+TxsProofEffects(p, onChain, serverTip) ==
+    LET tpr == pf[p].tpr IN
+    IF ~tpr.on THEN /\ out'.ban = {p} /\ UNCHANGED <<fetchH, fetchT, peer>> /\ IxUnchanged
+    ELSE IF ~onChain
+    THEN /\ out'.ban = {}
+         /\ peer' = [peer EXCEPT ![p] = ReceiveLastState(peer[p], serverTip, now).s]
+         /\ fetchT' = MarkTimeout(fetchT, Range(tpr.hs)) /\ UNCHANGED fetchH /\ IxUnchanged
+    ELSE LET req == Range(tpr.hs)
+             found == {t \in req : t >= 1 /\ IsAnc(world, TxOf(world, t).b, tpr.last)
+                                         /\ Num(world, TxOf(world, t).b) < Num(world, tpr.last)}
+             got == {t \in found : Entry(fetchT, t) # {}}
+         IN /\ out'.ban = {} /\ UNCHANGED peer
+            /\ fetchT' = MarkMissing(Without(fetchT, got), req \ found)
+            /\ fetchH' = Without(fetchH, {TxOf(world, t).b : t \in got})
+            \* the position of a transaction stored by filter_block (index # -1) is kept
+            /\ LET keep == {t \in got : \E e \in StoredTx(Ix, t) : e[3] # -1} IN
+               txs' = {e \in txs : e[1] \notin (got \ keep)}
+                      \cup {<<t, Num(world, TxOf(world, t).b), -1>> : t \in got \ keep}
+            /\ hdrs' = hdrs \cup {TxOf(world, t).b : t \in got}
+            /\ \A t \in got : <<Num(world, TxOf(world, t).b), TxOf(world, t).b>> \in nums'
+            /\ \A e \in nums' : e \in nums \/ \E t \in got : e = <<Num(world, TxOf(world, t).b), TxOf(world, t).b>>
+            /\ \A e \in nums : e \in nums' \/ \E t \in got : e[1] = Num(world, TxOf(world, t).b)
+            /\ UNCHANGED <<cells, hist>>
+
+\* the fetch_header part of an honest SendBlocksProof
+HeaderFetchEffects(found, missing) ==
+    LET got == {b \in found : Entry(fetchH, b) # {}} IN
+    /\ fetchH' = MarkMissing(Without(fetchH, got), missing)
+    /\ UNCHANGED fetchT
+    /\ hdrs' = hdrs \cup got
+    /\ \A b \in got : <<Num(world, b), b>> \in nums'
+    /\ \A e \in nums' : e \in nums \/ \E b \in got : e = <<Num(world, b), b>>
+    /\ \A e \in nums : e \in nums' \/ \E b \in got : e[1] = Num(world, b)
+    /\ UNCHANGED <<cells, hist, txs>>
 
 (***************************************************************************)
 (* Invariants (evaluated on every logged state)                            *)
@@ -316,7 +440,7 @@ NoForgedData ==
 \* (values are bound with \E x \in {e} so that TLC evaluates them once)
 CellsSound ==
     \E ch \in {Chain(world, tip)} :
-    \E spent \in {[k \in Keys |-> SpentOn(world, ch, NumOf(k))]} :
+    \E spent \in {[k \in Keys |-> SpentOn(world, ch, HonestNumOf(k))]} :
       \A c \in cells : c[1] \in Keys =>
         /\ OnCanon(world, ch, c[5], c[2], c[3])
         /\ c[4] < Len(TxOf(world, c[5]).outs)
@@ -345,7 +469,7 @@ ScriptsNumberHonest ==
     \E ch \in {Chain(world, tip)} :
     \E outs \in {{<<h[1], h[2], h[3], h[4], h[6]>> : h \in {g \in hist : g[5] = 1}}} :
       \A sk \in Keys :
-        sk \in DOMAIN startOf => CreatedOn(world, ch, sk, startOf[sk], NumOf(sk)) \subseteq outs
+        sk \in DOMAIN startOf => CreatedOn(world, ch, sk, startOf[sk], HonestNumOf(sk)) \subseteq outs
 
 \* C03 at quiescence: live cells and history are complete for every registered script
 Complete ==
@@ -357,6 +481,26 @@ Complete ==
         \E created \in {CreatedOn(world, ch, sk, startOf[sk], Num(world, tip))} :
            /\ {c \in created : <<c[5], c[4]>> \notin spent} \subseteq cells
            /\ created \subseteq outs
+
+\* C16: a request that has been sent, is not timed out and not reported missing is held by some peer
+NoOrphanFetch ==
+    /\ \A e \in fetchH : (e[3] # -1 /\ ~e[4] /\ ~e[5]) =>
+            \E p \in PeerNames : pf[p].bpr.on /\ e[1] \in Range(pf[p].bpr.hs)
+    /\ \A e \in fetchT : (e[3] # -1 /\ ~e[4] /\ ~e[5]) =>
+            \E p \in PeerNames : pf[p].tpr.on /\ e[1] \in Range(pf[p].tpr.hs)
+
+\* C16: whenever a transaction is reported committed in block b: b's header is stored and b contains it
+FetchedTruthful ==
+    \A e \in txs : e[1] >= 1 =>
+        LET bs == {n[2] : n \in {m \in nums : m[1] = e[2]}} IN
+        /\ bs # {}
+        /\ \A b \in bs : /\ b \in hdrs /\ b >= 1
+                          /\ \/ TxOf(world, e[1]).b = b
+                             \* KF-C16-txheight: transactions are tied to their block by NUMBER; when another
+                             \* block takes that number (fork switch, header of another branch fetched) the
+                             \* transaction is reported as committed in that other block
+                             \/ /\ "KF-C16-txheight" \in cfg.allow
+                                /\ Num(world, b) = Num(world, TxOf(world, e[1]).b)
 
 \* the invariants that only depend on index, scripts and tip (re-evaluated when one of them changes)
 IndexInv == CellsSound /\ HistOnCanon /\ ScriptsNumberHonest
